@@ -147,7 +147,7 @@ var qProfiles = map[string][]string{
 	"int":   {"1", "2", "3", "4", "5", " 2", "3 ", "+4", "05", "1", "2", "10", "-1", "0"},
 	"num":   {"1", "1.0", "1.5", "2", "2.50", "2.5", "3e0", "3", "-0", "0", "0.0", "10", " 1.5 ", "1e1"},
 	"text":  {"a", "A", " a", "b", "B ", "abc", "ABC", "Abc", "x:y", "x:[S]y", "[S]x", "a\\b", "", "ab c", "あ", "à", "À", "z"},
-	"date":  {"2012-02-03", "2012-02-03 00:00:00", "2012-02-04", "2012/02/03", "2012-02-03T00:00:00Z", "2011-12-31 23:59:59", "2012-02-03 09:18:15"},
+	"date":  {"2012-02-03", "2012-02-03 00:00:00", "2012-02-04", "2012/02/03", "2012-02-03T00:00:00Z", "2011-12-31 23:59:59", "2012-02-03 09:18:15", " 2012-02-03", "2012-02-04 ", "2012-2-3", "2012-2-4"},
 	"bool":  {"true", "false", "TRUE", "t", "F", "True", "1", "0"},
 	"mixed": {"1", "a", "1.5", "true", "2012-02-03", "", " A", "01", "1.0", "abc", "NaN", "x:[I]1", "-1", "t"},
 }
